@@ -539,7 +539,7 @@ func runC17(res *Result, tier string, rnd *Rand, replay string) {
 	res.Rule = "generated specifications: 1..3 applications (one namespaced), tuple/table/enum/alias types with primitive, optional, set/sequence and reference fields, tags and string / array / nested-array annotations on applications, types, fields and endpoints, simple endpoints with parameters, a REST endpoint with path and query parameters, statement trees to depth 6 over action/call/typed return/placeholder/if/for each/while/group/one of with up to 4 siblings per level; non-trivial = some statement at depth >= 4 has a sibling; distinct by text"
 	n := 110
 	if tier == "thorough" {
-		n = 3000
+		n = 800
 	}
 	var models []*rModel
 	if replay != "" {
